@@ -18,8 +18,10 @@ RULE = ("exhaustive enumeration of (kind, N, boundary condition, order, physical
 ASSUMPTIONS = ["reference stencils follow the row layout documented by construction in cuqi.operator "
                "(rows compared up to a per-row sign, since the sign of a difference is not documented)"]
 EXHAUSTIVE = {"quick": True, "thorough": True}
-REQUIRED_COUNTERS = {"quick": {"stencil_rows_checked": 500, "nullspace_checked": 50, "gmrf_rank_logdet_checked": 40, "mrf_density_checked": 100, "gmrf_config_switch_checked": 20},
-                     "thorough": {"stencil_rows_checked": 3000, "nullspace_checked": 200, "gmrf_rank_logdet_checked": 150, "mrf_density_checked": 400, "gmrf_config_switch_checked": 60}}
+REQUIRED_COUNTERS = {"quick": {"stencil_rows_checked": 500, "nullspace_checked": 50, "gmrf_rank_logdet_checked": 40, "mrf_density_checked": 100, "gmrf_config_switch_checked": 20, "mrf_extreme_magnitude_beyond_exp_range": 100},
+                     "thorough": {"stencil_rows_checked": 3000, "nullspace_checked": 200, "gmrf_rank_logdet_checked": 150, "mrf_density_checked": 400, "gmrf_config_switch_checked": 60, "mrf_extreme_magnitude_beyond_exp_range": 300}}
+
+EXTREME_SCALES = (1e-3, 0.02, 0.05, 1.0, 50.0, 1e3)
 
 def _ranges(tier):
     return (range(2, 13), range(2, 6)) if tier == "quick" else (range(2, 41), range(2, 13))
@@ -31,17 +33,11 @@ def cases(tier, seed):
         for N in rng:
             for order in (1, 2):
                 for bc in (S.BCS1 if order == 1 else S.BCS2):
-                    if order == 2 and N < 3:
-                        continue
                     dxs = (None, 0.5, 2.0) if pd == 1 else (None, 0.5)
                     for dx in dxs:
                         out.append({"kind": "op", "N": N, "bc": bc, "order": order, "pd": pd, "dx": dx})
             for order in (0, 1, 2):
                 for bc in ("zero", "periodic", "neumann"):
-                    if order == 2 and N < 4:
-                        continue
-                    if N ** pd < 3:
-                        continue
                     out.append({"kind": "prec", "N": N, "bc": bc, "order": order, "pd": pd})
                     # variant 0/1: a fresh object per precision; 2: one object whose prec is re-assigned
                     # (history); 3: conditioned copies of one object with a callable precision (as Gibbs does)
@@ -58,6 +54,15 @@ def cases(tier, seed):
                 for variant in range(3):
                     out.append({"kind": "lmrf", "N": N, "bc": bc, "pd": pd, "variant": variant})
                     out.append({"kind": "cmrf", "N": N, "bc": bc, "pd": pd, "variant": variant})
+    # magnitudes: long fields and small/large scales, where the log-density is of ordinary size but products of
+    # the individual factors over- or underflow (the documented density is a *sum* of log terms)
+    big1, big2 = ((64, 256, 600), (10, 16)) if tier == "quick" else ((64, 150, 256, 400, 600, 1000), (10, 16, 24, 32))
+    for pd, sizes in ((1, big1), (2, big2)):
+        for N in sizes:
+            for bc in ("zero", "periodic", "neumann"):
+                for si in range(len(EXTREME_SCALES)):
+                    out.append({"kind": "lmrf", "N": N, "bc": bc, "pd": pd, "variant": 3, "scale_idx": si})
+                    out.append({"kind": "cmrf", "N": N, "bc": bc, "pd": pd, "variant": 3, "scale_idx": si})
     return out
 
 def crash_config(case):
@@ -239,14 +244,22 @@ def run_case(case, ctx):
     # LMRF / CMRF : documented densities of the first differences of (x - location)
     R = S.diff_op(N, bc, 1, pd)
     scale = 0.3 if variant == 0 else float(rs.uniform(0.05, 5))
+    if variant == 3:
+        scale = EXTREME_SCALES[case["scale_idx"]]
     if kind == "lmrf":
         d = cuqi.distribution.LMRF(shift, scale, bc_type=bc, geometry=geom, name="x")
         ref = lambda x: float(np.sum(-np.log(2 * scale) - np.abs(R @ (x - shift)) / scale))
     else:
         d = cuqi.distribution.CMRF(shift, scale, bc_type=bc, geometry=geom, name="x")
         ref = lambda x: float(np.sum(np.log(scale / np.pi) - np.log((R @ (x - shift)) ** 2 + scale ** 2)))
-    for _ in range(4):
-        x = shift + rs.standard_normal(n) * rs.choice([0.1, 1.0, 10.0])
+    amps = [rs.choice([0.1, 1.0, 10.0]) for _ in range(4)] if variant != 3 else [1e-3, 1.0, 100.0]
+    for amp in amps:
+        if variant == 3:   # smooth and rough fields
+            x = shift + amp * (rs.standard_normal(n) if rs.uniform() < 0.5 else np.sin(np.arange(n) * 2 * np.pi / n))
+            ctx.count("mrf_extreme_magnitude_checked")
+            ctx.count("mrf_extreme_magnitude_beyond_exp_range", int(abs(ref(x)) > 745))
+        else:
+            x = shift + rs.standard_normal(n) * amp
         ctx.count("mrf_density_checked")
         got = float(d.logpdf(x))
         if not ctx.close(got, ref(x), rtol=1e-10, atol=1e-9):
